@@ -20,6 +20,9 @@
     txinsize <raw> / txoutsize <raw> -> panic | <n>                                   (btc.TxInSize / TxOutSize; 0 = refused)
     vlen <raw>    -> <value as Go int> <size>                                          (btc.VLen, Base.vlen; 0 0 = buffer too short)
     putule <n>    -> <bytes>                                                            (canonical CompactSize, Base.putULe)
+    vule <raw>    -> <value> <size>                                                      (btc.VULe, Base.vule: unsigned value; 0 0 = too short)
+    vlensize <n>  -> <1|3|5|9>                                                           (btc.VLenSize, Base.vlenSize)
+  Model/WireFast.lean is imported for its @[csimp] equations only (txSize in time linear in the input).
     obj <data> {u:<raw> | b0 | b1 | c | d:<raw>}*   one btc.Block object through a history (Model/WireBlockObj.lean):
                   NewBlock(data), then UpdateContent / BuildTxListExt(false|true) / Clean / the client's reset
                   -> none (NewBlock refused: no object)
@@ -27,6 +30,7 @@
                      <outcome>/<TxCount>/<TxOffset>/<BlockWeight>/<TotalInputs>/<nil | n{,<hash>:<wtxid>:<size>:<nowitsize>}*>
 -/
 import GocoinV.Model.Wire
+import GocoinV.Model.WireFast
 import GocoinV.Model.WireAlloc
 import GocoinV.Model.WireBlock
 import GocoinV.Model.WireBlockObj
@@ -187,6 +191,12 @@ def step (_ : Unit) (toks : List String) : Unit × String :=
     | none => bad
   | ["putule", n] => match n.toNat? with
     | some n => ((), Hex.encode (CompactSize.putULe n))
+    | none => bad
+  | ["vule", b] => match Hex.decode b with
+    | some b => ((), s!"{(CompactSize.vule b).1} {(CompactSize.vule b).2}")
+    | none => bad
+  | ["vlensize", n] => match n.toNat? with
+    | some n => ((), toString (CompactSize.vlenSize n))
     | none => bad
   | "enc" :: ts => match encReply ts with
     | some r => ((), r)
